@@ -582,6 +582,23 @@ fn id_rank(ranks: &HashMap<String, i64>, v: Option<&str>) -> i64 {
 
 /// content -> the fixed record the observer reads: k (tag), n (counter), tid (rank of the
 /// trigger id carried in the content), t (trigger topic), x (ranks of ids the script listed)
+/// JSON with object keys sorted, no whitespace (the spelling tools/groups/proc_catalogue.py `canon` produces)
+fn canon_json(v: &Value) -> String {
+    match v {
+        Value::Object(o) => {
+            let mut keys: Vec<&String> = o.keys().collect();
+            keys.sort();
+            let parts: Vec<String> = keys
+                .iter()
+                .map(|k| format!("{}:{}", serde_json::to_string(k).unwrap(), canon_json(&o[*k])))
+                .collect();
+            format!("{{{}}}", parts.join(","))
+        }
+        Value::Array(a) => format!("[{}]", a.iter().map(canon_json).collect::<Vec<_>>().join(",")),
+        other => other.to_string(),
+    }
+}
+
 fn norm_content(bytes: Option<&[u8]>, ranks: &HashMap<String, i64>) -> Value {
     let mut out = json!({"k": "", "n": -1, "tid": -2, "t": "-", "x": [], "hx": -2});
     let Some(b) = bytes else { return out };
@@ -626,6 +643,10 @@ fn norm_content(bytes: Option<&[u8]>, ranks: &HashMap<String, i64>) -> Value {
             }
             if let Some(h) = o.get("hx") {
                 out["hx"] = json!(id_rank(ranks, h.as_str()));
+            }
+            // a payload whose fidelity matters (e.g. the trigger's meta echoed back): part of the tag
+            if let Some(z) = o.get("z") {
+                out["k"] = json!(format!("{}|{}", out["k"].as_str().unwrap_or(""), canon_json(z)));
             }
         }
         Ok(Value::String(q)) => from_str(&mut out, &q),
